@@ -6,6 +6,7 @@ import (
 	"fmt"
 	"sort"
 	"strconv"
+	"strings"
 
 	"github.com/zerx-lab/wordZero/pkg/document"
 	"github.com/zerx-lab/wordZero/pkg/style"
@@ -79,6 +80,7 @@ type Page struct {
 type Val struct {
 	S string `json:"s"`
 	I bool   `json:"i,omitempty"` // pass strconv.Atoi(S) as int
+	K string `json:"k,omitempty"` // other Go types: "i64" int64, "f" float64, "b" bool (S is the decimal / true|false text)
 }
 
 type Data struct {
@@ -86,6 +88,8 @@ type Data struct {
 	Lists map[string][]map[string]string `json:"lists,omitempty"`
 	Imgs  map[string]gen.Img             `json:"imgs,omitempty"`
 	Conds map[string]bool                `json:"conds,omitempty"`
+	// TypedItems: item fields whose text is a canonical decimal integer are passed as int (documented: "price": 100)
+	TypedItems bool `json:"typed_items,omitempty"`
 }
 
 type Case struct {
@@ -95,7 +99,13 @@ type Case struct {
 	Props       []string `json:"props,omitempty"` // title, author, subject
 	CustomStyle string   `json:"custom_style,omitempty"`
 	Data        Data     `json:"data"`
-	Entry       int      `json:"entry"` // 0 LoadTemplateFromDocument+RenderTemplateToDocument; 1 saved file -> TemplateRenderer.LoadTemplateFromFile+RenderTemplate; 2 like 1, the file having package relationships to its docProps parts
+	Foreign     *Foreign `json:"foreign,omitempty"` // Entry >= 1: the template file in another producer's spelling (foreign.go)
+	// Prior: what the engine did with the template before the judged rendering. 0 nothing; 1 the same template was rendered
+	// once with other data (every name supplied, other pictures); 2 additionally a second template of the same engine was
+	// loaded and rendered in between; 3 the earlier rendering was given picture data that is no picture (it may fail: its
+	// result and error are ignored)
+	Prior int `json:"prior,omitempty"`
+	Entry int `json:"entry"` // 0 LoadTemplateFromDocument+RenderTemplateToDocument; 1 saved file -> TemplateRenderer.LoadTemplateFromFile+RenderTemplate; 2 like 1, the file having package relationships to its docProps parts
 }
 
 func (c *Case) templateData() *document.TemplateData {
@@ -107,13 +117,7 @@ func (c *Case) templateData() *document.TemplateData {
 	sort.Strings(names)
 	for _, k := range names {
 		v := c.Data.Vars[k]
-		if v.I {
-			if n, err := strconv.Atoi(v.S); err == nil {
-				td.SetVariable(k, n)
-				continue
-			}
-		}
-		td.SetVariable(k, v.S)
+		td.SetVariable(k, v.value())
 	}
 	for k, l := range c.Data.Lists {
 		items := make([]interface{}, 0, len(l))
@@ -127,7 +131,7 @@ func (c *Case) templateData() *document.TemplateData {
 		td.SetList(k, items)
 	}
 	for k, im := range c.Data.Imgs {
-		td.SetImageFromData(k, im.Bytes(), nil)
+		td.SetImageFromData(k, imgBytes(im), nil)
 	}
 	for k, v := range c.Data.Conds {
 		td.SetCondition(k, v)
@@ -135,8 +139,45 @@ func (c *Case) templateData() *document.TemplateData {
 	return td
 }
 
-// value returns the text a supplied variable renders as.
+// text returns the text a supplied variable renders as: the string itself, the decimal text of a number, true/false.
 func (v Val) text() string { return v.S }
+
+// value returns what is passed to SetVariable.
+func (v Val) value() interface{} {
+	switch {
+	case v.I:
+		if n, err := strconv.Atoi(v.S); err == nil {
+			return n
+		}
+	case v.K == "i64":
+		if n, err := strconv.ParseInt(v.S, 10, 64); err == nil {
+			return n
+		}
+	case v.K == "f":
+		if x, err := strconv.ParseFloat(v.S, 64); err == nil {
+			return x
+		}
+	case v.K == "b":
+		if v.S == "true" || v.S == "false" {
+			return v.S == "true"
+		}
+	}
+	return v.S
+}
+
+// canonicalInt: s is the decimal text strconv.Itoa gives for some int of at most nine digits.
+func canonicalInt(s string) bool {
+	d := strings.TrimPrefix(s, "-")
+	if d == "" || len(d) > 9 || (d[0] == '0' && (len(d) > 1 || s != d)) {
+		return false
+	}
+	for _, ch := range d {
+		if ch < '0' || ch > '9' {
+			return false
+		}
+	}
+	return true
+}
 
 // ---------------------------------------------------------------------------------------------
 
@@ -206,7 +247,7 @@ func addRuns(doc *document.Document, p *document.Paragraph, runs []Run, allowPic
 				continue
 			}
 			// the API adds a picture as a paragraph of its own; move its drawing run into p
-			if _, err := doc.AddImageFromData(r.Img.Bytes(), r.Img.Name, ops.ImgFormats[r.Img.Fmt], r.Img.W, r.Img.H, nil); err != nil {
+			if _, err := doc.AddImageFromData(imgBytes(*r.Img), r.Img.Name, ops.ImgFormats[r.Img.Fmt], r.Img.W, r.Img.H, nil); err != nil {
 				return fmt.Errorf("AddImageFromData: %w", err)
 			}
 			n := len(doc.Body.Elements)
@@ -409,4 +450,21 @@ func build(c *Case) (*document.Document, error) {
 		}
 	}
 	return doc, nil
+}
+
+// imgBytes encodes a generated image once (the encoders are deterministic; the same picture is needed by the builder,
+// the data set and the reference). The library copies what it is given, so the cached slice is never written to;
+// callers that hand it to the library get a copy all the same.
+var imgCache = map[gen.Img][]byte{}
+
+func imgBytes(im gen.Img) []byte {
+	b, ok := imgCache[im]
+	if !ok {
+		if len(imgCache) > 2048 {
+			imgCache = map[gen.Img][]byte{}
+		}
+		b = im.Bytes()
+		imgCache[im] = b
+	}
+	return append([]byte(nil), b...)
 }
